@@ -268,6 +268,20 @@ func Alphabet(info map[string]any) []*twin.TxGen {
 	price := func(v int, ts int64, sps ...feedstypes.SignalPrice) sdk.Msg {
 		return feedstypes.NewMsgSubmitSignalPrices(valAcc(v).ValAddress.String(), ts, sps)
 	}
+	// valid submissions of extreme prices by the two large validators (two of them move the published price, and with it
+	// every tunnel's deviation arithmetic, to the extreme)
+	if _, busy := info["busy"]; busy {
+		now := engine.GenesisTime.Unix() + 33
+		for _, v := range []int{0, 2} {
+			for _, pv := range []struct {
+				n string
+				p uint64
+			}{{"max", math.MaxUint64}, {"one", 1}} {
+				add(fmt.Sprintf("feeds.prices.%s.v%d", pv.n, v), valAcc(v), price(v, now,
+					feedstypes.NewSignalPrice(feedstypes.SIGNAL_PRICE_STATUS_AVAILABLE, sigA, pv.p), feedstypes.NewSignalPrice(feedstypes.SIGNAL_PRICE_STATUS_AVAILABLE, sigB, pv.p)))
+			}
+		}
+	}
 	add("feeds.prices.ts-far", valAcc(0), price(0, 1, feedstypes.NewSignalPrice(feedstypes.SIGNAL_PRICE_STATUS_AVAILABLE, sigA, 5)))
 	add("feeds.prices.unknown-signal", valAcc(1), price(1, engine.GenesisTime.Unix()+60, feedstypes.NewSignalPrice(feedstypes.SIGNAL_PRICE_STATUS_AVAILABLE, "CS:ZZZ-USD", 5)))
 	add("feeds.prices.by-non-validator", A, feedstypes.NewMsgSubmitSignalPrices(sdk.ValAddress(A.Address).String(), engine.GenesisTime.Unix()+60, []feedstypes.SignalPrice{feedstypes.NewSignalPrice(feedstypes.SIGNAL_PRICE_STATUS_AVAILABLE, sigA, 5)}))
